@@ -274,7 +274,7 @@ func (w *cqWorld) finalCheck(x *sched.X) {
 			backendAck += off
 			if backendAck != w.cum[idx] && !disc {
 				missed = true
-				x.Fail("no-catch-up@"+org.kind+"-"+org.out, "after forwarding client packet %d (%s %s off=%d), which carries a last-seen update, the backend has received %d acknowledgements but the client had acknowledged %d\n%s",
+				x.Fail("no-catch-up@"+strings.TrimSuffix(org.kind+"-"+org.out, "-"), "after forwarding client packet %d (%s %s off=%d), which carries a last-seen update, the backend has received %d acknowledgements but the client had acknowledged %d\n%s",
 					idx, org.kind, org.out, org.off, backendAck, w.cum[idx], desc())
 			}
 		}
